@@ -277,7 +277,7 @@ def shard(ctx, vi, pops, sub):
 
 
 def main(ctx):
-    pops = ctx.pick(2, 25)
+    pops = ctx.pick(2, 80)
     reps = ctx.pick(1, 2)
     ctx.shards("shard", [{"vi": vi, "pops": pops, "sub": r} for vi in range(len(REDUN_DB_VERSIONS) - 1) for r in range(reps)],
                timeout=ctx.pick(600, 3400))
